@@ -227,12 +227,12 @@ def rename_refs(s, old, new):
 
 
 class Evolver:
-    WEIGHT = {"change_kind": 0.15, "demote": 0.5, "to_primdict": 0.4, "wrap_union": 0.7}
+    WEIGHT = {"change_kind": 0.15, "demote": 0.5, "to_primdict": 0.4, "wrap_union": 0.7, "annotate": 0.5}
     STEPS = ["add_field_default", "add_field_nodefault", "remove_field", "reorder_fields", "rename_field_alias",
              "rename_field_noalias", "promote", "demote", "enum_add_symbol", "enum_remove_symbol", "enum_reorder",
              "fixed_size", "rename_type_alias", "rename_type_noalias", "move_definition", "wrap_union", "unwrap_union",
              "reorder_union", "union_add_branch", "union_remove_branch", "change_namespace", "change_kind",
-             "field_alias_swap", "drop_default", "to_primdict", "writer_alias_field", "writer_alias_type"]
+             "field_alias_swap", "drop_default", "to_primdict", "writer_alias_field", "writer_alias_type", "annotate"]
 
     def __init__(self, rng):
         self.rng = rng
@@ -297,10 +297,10 @@ class Evolver:
         self.last_site = self.rng.choice(c) if c else None
         return self.last_site
 
-    KEEP_ENCLOSING_DEFAULT = {"writer_alias_type", "rename_type_alias", "rename_type_noalias", "change_namespace", "reorder_fields", "reorder_union",
+    KEEP_ENCLOSING_DEFAULT = {"annotate", "writer_alias_type", "rename_type_alias", "rename_type_noalias", "change_namespace", "reorder_fields", "reorder_union",
                               "enum_add_symbol", "enum_reorder", "to_primdict", "promote", "demote", "enum_remove_symbol",
                               "move_definition"}
-    PURE = {"writer_alias_type", "rename_type_alias", "rename_type_noalias", "change_namespace", "reorder_fields", "reorder_union", "enum_add_symbol",
+    PURE = {"annotate", "writer_alias_type", "rename_type_alias", "rename_type_noalias", "change_namespace", "reorder_fields", "reorder_union", "enum_add_symbol",
             "enum_reorder", "to_primdict", "move_definition"}
 
     def step(self, name, top, defs):
@@ -381,6 +381,13 @@ class Evolver:
                     f2["default"] = copy.deepcopy(f["default"])
                 st.get()["fields"].append(f2)
             return "%s@%d" % (name, st.depth)
+        if name == "annotate":
+            # an (unknown) logicalType on an array / map / named-type node: neither the code nor the rules look at it
+            st = self.pick(top, lambda s: kind(s.get()) in ("record", "enum", "fixed", "array", "map") and "logicalType" not in s.get())
+            if not st:
+                return None
+            st.get()["logicalType"] = rng.choice(ANNOTATIONS)
+            return "annotate@%d:%s" % (st.depth, kind(st.get()))
         if name in ("promote", "demote", "to_primdict"):
             table = PROMOTE if name == "promote" else DEMOTE
             def ok(s):
@@ -669,6 +676,34 @@ def add_writer_aliases(raw, rng, pf=0.35, pt=0.25):
                     if "aliases" not in f and rng.random() < pf:
                         f["aliases"] = ["wa_" + f["name"]] + (["wb_" + f["name"]] if rng.random() < 0.2 else [])
                         n += 1
+                    walk(f["type"])
+            elif t == "array":
+                walk(s["items"])
+            elif t == "map":
+                walk(s["values"])
+    walk(raw)
+    return n
+
+
+ANNOTATIONS = ["x-note", "x-unit", "custom-lt"]
+
+
+def add_writer_annotations(raw, rng, p=0.3):
+    """an (unknown) logicalType on array / map / named-type nodes of a (raw) WRITER schema, in place"""
+    n = 0
+
+    def walk(s):
+        nonlocal n
+        if isinstance(s, list):
+            for b in s:
+                walk(b)
+        elif isinstance(s, dict):
+            t = s.get("type")
+            if (t in NAMED or t in ("array", "map")) and "logicalType" not in s and rng.random() < p:
+                s["logicalType"] = rng.choice(ANNOTATIONS)
+                n += 1
+            if t in ("record", "error"):
+                for f in s.get("fields", []):
                     walk(f["type"])
             elif t == "array":
                 walk(s["items"])
